@@ -24,7 +24,10 @@ SetOf(s) == {s[i] : i \in DOMAIN s}
 NoInner == [S |-> <<>>, q |-> <<>>, rows |-> <<>>, rank |-> <<>>]
 TInit == /\ tid \in 1..Len(Traces) /\ l = 1 /\ inner = NoInner
 
+\* (sub-sampling cases that hand sample weights through the wrapper log `wok`: every weight reached the wrapped
+\*  strategy at the row of its own sample)
 TInner == /\ IsEvent("Inner")
+          /\ C("sample-weights-follow-their-samples", "wok" \in DOMAIN Ev => Ev.wok)
           /\ inner' = [S |-> Ev.S, q |-> Ev.q, rows |-> Ev.rows, rank |-> Ev.rank]
 
 \* documented size of the sub-sample
